@@ -651,3 +651,13 @@ func phiIncludes(v, x ssa.Value) bool {
 	}
 	return visit(v)
 }
+
+func arrayLen(t types.Type) (int64, bool) {
+	if p, ok := t.Underlying().(*types.Pointer); ok {
+		t = p.Elem()
+	}
+	if a, ok := t.Underlying().(*types.Array); ok {
+		return a.Len(), true
+	}
+	return 0, false
+}
